@@ -4,6 +4,7 @@
 # 2. applies it to /repo, runs the named checks (default: <prop>), and undoes it straight afterwards.
 export GOFLAGS=-mod=mod GOPROXY=off GOSUMDB=off GOTOOLCHAIN=local
 prop=$1; dir=$2; shift 2; checks=${@:-$prop}
+if [ -n "$(git -C /repo status --porcelain)" ]; then echo "REFUSING: /repo has uncommitted changes (they would be lost by the checkout that undoes the seed)"; exit 2; fi
 wt=$(mktemp -d -u -p /dev/shm seedwt-XXXX)
 git -C /repo worktree add -q --detach $wt HEAD || exit 2
 trap "git -C /repo worktree remove --force $wt" EXIT
